@@ -240,7 +240,7 @@ package yubiagent
 
 //@ func (*client).Close(c)
 //@   requires c != nil && cinv(c)
-//@   ensures calls(Closer.Close) == old(calls(Closer.Close)) + 1 && result == ret(Closer.Close, old(calls(Closer.Close)), 0)
+//@   ensures calls(Conn.Close) == old(calls(Conn.Close)) + 1 && pl(arg(Conn.Close, old(calls(Conn.Close)), 0)) == pl(c.conn) && result == ret(Conn.Close, old(calls(Conn.Close)), 0)
 
 //@ # ---------------------------------------------------------------- C13: slots on the serving side
 //@ func (*server).ListSlots(s)
@@ -258,12 +258,12 @@ package yubiagent
 //@   requires s != nil
 //@   modifies all
 //@   let e0 = old(calls(Cmd.Output))
-//@   ensures [refused-in-remote-mode] s.remote ==> (cert == nil && err != nil && calls(Cmd.Output) == e0)
-//@   ensures [tool-failure-is-an-error] (!s.remote && ret(Cmd.Output, e0, 1) != nil) ==> (cert == nil && err == ret(Cmd.Output, e0, 1))
+//@   ensures [refused-in-remote-mode] old(s.remote) ==> (cert == nil && err != nil && calls(Cmd.Output) == e0)
+//@   ensures [tool-failure-is-an-error] (!old(s.remote) && ret(Cmd.Output, e0, 1) != nil) ==> (cert == nil && err == ret(Cmd.Output, e0, 1))
 
 //@ func (*server).AttestSlot(s, slot)
 //@   requires s != nil
 //@   modifies all
 //@   let e0 = old(calls(Cmd.Output))
-//@   ensures [refused-in-remote-mode] s.remote ==> (cert == nil && err != nil && calls(Cmd.Output) == e0)
-//@   ensures [tool-failure-is-an-error] (!s.remote && ret(Cmd.Output, e0, 1) != nil) ==> (cert == nil && err == ret(Cmd.Output, e0, 1))
+//@   ensures [refused-in-remote-mode] old(s.remote) ==> (cert == nil && err != nil && calls(Cmd.Output) == e0)
+//@   ensures [tool-failure-is-an-error] (!old(s.remote) && ret(Cmd.Output, e0, 1) != nil) ==> (cert == nil && err == ret(Cmd.Output, e0, 1))
